@@ -312,6 +312,30 @@ func posMonitor(args []string) int {
 				rep.Stats["successors_checked"]++
 			}
 		}
+		// the key separates single-component differences: the same position without its en-passant square,
+		// with one castling right less, with the other side to move must have another key
+		if len(g.Moves) == 0 || rng.Chance(25) {
+			ff := strings.Fields(p.StringFen())
+			variants := map[string]string{}
+			if ff[3] != "-" {
+				variants["without the en-passant square"] = strings.Join([]string{ff[0], ff[1], ff[2], "-", ff[4], ff[5]}, " ")
+			}
+			if ff[2] != "-" {
+				r := ff[2][1:]
+				if r == "" {
+					r = "-"
+				}
+				variants["with one castling right less"] = strings.Join([]string{ff[0], ff[1], r, ff[3], ff[4], ff[5]}, " ")
+			}
+			for what, vf := range variants {
+				if q, err := position.NewPositionFen(vf); err == nil && q != nil && q.ZobristKey() == p.ZobristKey() {
+					vi := in()
+					vi["variant"] = vf
+					rep.Violate("different-positions-same-key", vi, "the same position "+what+" has the same key")
+				}
+			}
+			rep.Stats["key_variants_checked"] += len(variants)
+		}
 		// key is a function of (placement, side, rights, ep)
 		core := fmt.Sprintf("%s|%s|%s|%s", cur.fields["board"], cur.fields["nextPlayer"], cur.fields["castling"], cur.fields["ep"])
 		key := uint64(p.ZobristKey())
